@@ -269,3 +269,116 @@ Example c05_nak_that_acknowledges :
   filter (fun o => match o with HDone _ _ | HData _ _ _ _ _ _ => true | _ => false end)
          (snd (host_step st (Frames [Nak 0 0 1]))) = [HDone 3 OOk].
 Proof. exact nak_that_acknowledges. Qed.
+
+(* ---- the tie to the source text: the sender coroutine ---------------------------------------------------
+   AshProtocol._change_ack_timeout, send_data and _send_data_frame are emitted from their source on every run
+   (gen/GenAshTxFn.v): the coroutine is cut at its suspension points into [py_send_attempt_begin] (loop head to
+   the await) and [py_send_attempt_end] (resumption to the end of the iteration, per outcome of the wait);
+   [py_send_resume] joins an end, the `for` and the next begin.  [interp] (proofs/AshTxSrc_proofs.v) reads a
+   segment's result as a model transition in one way for every outcome: attributes stored back, a suspended
+   coroutine = the current send awaiting its future until send time + timeout, a returned / raised one reported
+   to its caller, the released semaphore handed to the queued sends, the calls it made as outputs. *)
+Require Import BV.gen.GenAshTxFn BV.proofs.AshTxSrc_proofs.
+
+(* max(T_RX_ACK_MIN, min(new_value, T_RX_ACK_MAX)) as written is the model's clamp, for every float *)
+Theorem c05_source_change_ack_timeout : forall t v, py_change_ack_timeout t v = clamp v.
+Proof. exact src_change_ack_timeout. Qed.
+
+(* (7 / 8) * t + 0.5 * delta after an acknowledgement or a NAK, 2 * t after a timeout, nothing after NcpFailure;
+   same association and literals, clamped *)
+Theorem c05_source_timeout_update : forall rx tx fl code t frame frm attempt send now,
+  t_of (py_send_attempt_end (rx, tx, fl, code, t) frame frm attempt send now WAcked) = on_ack_time t (PrimFloat.sub now send)
+  /\ t_of (py_send_attempt_end (rx, tx, fl, code, t) frame frm attempt send now WNotAcked) = on_ack_time t (PrimFloat.sub now send)
+  /\ t_of (py_send_attempt_end (rx, tx, fl, code, t) frame frm attempt send now WTimeout) = on_timeout t
+  /\ (forall c, t_of (py_send_attempt_end (rx, tx, fl, code, t) frame frm attempt send now (WNcpFailure c)) = t).
+Proof. exact src_timeout_update. Qed.
+
+(* one transmission: the number is taken once (when frm_num is None, and then _tx_seq moves on), reTx = attempt > 0,
+   ackNum = the current _rx_seq, the future is registered under the number before the write, the wait is bounded by
+   _t_rx_ack from now: this is the model's [transmit] *)
+Theorem c05_source_attempt_begin : forall st code id payload h1 h2 h3 frm_opt attempt,
+  failed st = false ->
+  let frm := match frm_opt with Some f => f | None => tx_seq st end in
+  let st1 := match frm_opt with
+             | Some _ => st
+             | None => {| tx_seq := (tx_seq st + 1) mod 8; rx_seq := rx_seq st; failed := false; t_ack := t_ack st; now := now st;
+                          waiters := waiters st; cur := cur st; cancelled := cancelled st |}
+             end in
+  let frame := (Some frm, Some (if attempt =? 0 then 0 else 1), Some (rx_seq st), payload) in
+  py_send_attempt_begin (sstate st code) [] (h1, h2, h3, payload) frm_opt attempt (now st)
+    = RAwait (sstate st1 code) [TRegister frm; TWrite frame; TAwaitAck (t_ack st)] frame frm attempt (now st)
+  /\ interp st id (py_send_attempt_begin (sstate st code) [] (h1, h2, h3, payload) frm_opt attempt (now st))
+    = transmit st1 id payload frm attempt.
+Proof. exact src_attempt_begin. Qed.
+
+(* in the failed state nothing is written: the coroutine raises NcpFailure at the loop head *)
+Theorem c05_source_attempt_begin_failed : forall st code payload h1 h2 h3 frm_opt attempt,
+  failed st = true ->
+  py_send_attempt_begin (sstate st code) [] (h1, h2, h3, payload) frm_opt attempt (now st)
+    = RRaise (sstate st code) (pops frm_opt ++ [TRelease]) (XNcpFailure ERROR_EXCEEDED_MAXIMUM_ACK_TIMEOUT_COUNT).
+Proof. exact src_attempt_begin_failed. Qed.
+
+(* the end of an attempt, per outcome: return / raise the failure / repeat, or on the last permitted attempt
+   _enter_failed_state(ERROR_EXCEEDED_MAXIMUM_ACK_TIMEOUT_COUNT) and re-raise; the pending entry is popped and the
+   semaphore released on every way out *)
+Theorem c05_source_attempt_end : forall rx tx fl code t frame frm attempt send now,
+  py_send_attempt_end (rx, tx, fl, code, t) frame frm attempt send now WAcked
+    = RReturn (rx, tx, fl, code, on_ack_time t (PrimFloat.sub now send)) [TPop frm; TRelease]
+  /\ (forall c, py_send_attempt_end (rx, tx, fl, code, t) frame frm attempt send now (WNcpFailure c)
+    = RRaise (rx, tx, fl, code, t) [TPop frm; TRelease] (XNcpFailure c))
+  /\ py_send_attempt_end (rx, tx, fl, code, t) frame frm attempt send now WNotAcked
+    = (if ACK_TIMEOUTS - 1 <=? attempt
+       then RRaise (rx, tx, true, code, on_ack_time t (PrimFloat.sub now send)) (give_up ++ [TPop frm; TRelease]) XNotAcked
+       else RNext (rx, tx, fl, code, on_ack_time t (PrimFloat.sub now send)) [] frame (Some frm))
+  /\ py_send_attempt_end (rx, tx, fl, code, t) frame frm attempt send now WTimeout
+    = (if ACK_TIMEOUTS - 1 <=? attempt
+       then RRaise (rx, tx, true, code, on_timeout t) (give_up ++ [TPop frm; TRelease]) XTimeout
+       else RNext (rx, tx, fl, code, on_timeout t) [] frame (Some frm)).
+Proof. exact src_attempt_end. Qed.
+
+(* `for attempt in range(ACK_TIMEOUTS)` never runs out: an iteration that ends without return / raise has a successor *)
+Theorem c05_source_budget : forall s frame frm a send now w,
+  match py_send_attempt_end s frame frm a send now w with
+  | RNext _ _ _ _ => py_send_next_attempt a = Some (a + 1)
+  | _ => True
+  end.
+Proof. exact src_never_exhausted. Qed.
+
+(* the coroutine resumes with its future resolved (acknowledged / NotAcked / NcpFailure): the model's [settle] is
+   the emitted code from the resumption to the next suspension point or the end, for every state and attempt *)
+Theorem c05_source_attempt : forall st c code h1 h2 h3 w,
+  cur st = Some c -> waited_of (cfut c) = Some w ->
+  settle st
+  = interp st (cid c)
+      (py_send_resume (sstate st code) (h1, h2, h3, cpayload c) (cfrm c) (cattempt c) (csent c) (now st) w).
+Proof. exact src_settle. Qed.
+
+(* ... with TimeoutError at the deadline: the model's Tick *)
+Theorem c05_source_timeout : forall st c code h1 h2 h3,
+  cur st = Some c -> cfut c = FPending ->
+  host_step st Tick
+  = interp (set_now st (cdeadline c)) (cid c)
+      (py_send_resume (sstate st code) (h1, h2, h3, cpayload c) (cfrm c) (cattempt c) (csent c) (cdeadline c) WTimeout).
+Proof. exact src_tick. Qed.
+
+(* ... with TimeoutError after frames of the same loop iteration had their effects (model/AshRace.v) *)
+Theorem c05_source_race : forall st fs c code h1 h2 h3,
+  cur st = Some c -> cfut c = FPending ->
+  race_step st fs
+  = let '(st1, o1) := apply_frames (set_now st (cdeadline c)) fs in
+    match cur st1 with
+    | Some c1 =>
+        let '(st3, o3) := interp st1 (cid c1)
+              (py_send_resume (sstate st1 code) (h1, h2, h3, cpayload c1) (cfrm c1) (cattempt c1) (csent c1) (now st1) WTimeout) in
+        (st3, o1 ++ o3)
+    | None => (st1, o1)
+    end.
+Proof. exact src_race. Qed.
+
+(* queued sends: the semaphore is granted in FIFO order and every send starts with the emitted first segment
+   ([sched]: [py_send_enter] on the frame [py_send_data_arg payload] that send_data builds) *)
+Theorem c05_source_queue : forall fuel code st, start_next fuel st = sched fuel code st.
+Proof. exact src_start_next. Qed.
+
+Theorem c05_source_init : py_tx_init = sstate h_init 256.
+Proof. exact src_init. Qed.
